@@ -127,6 +127,19 @@ func ResourcePayload(t *rapid.T, ts *TypeSpec, o PayloadOpts) *PayloadCase {
 		case mode == 2:
 			f.Form, f.HasData = "data-null", true
 			f.Text = `{"data":null}`
+		case mode == 4 && o.IllRelPerTen > 0 && rapid.IntRange(0, 9).Draw(t, "illmember") < o.IllRelPerTen:
+			// Well-formed linkage next to a links / meta member of the
+			// wrong JSON kind (members the library does not use).
+			f.Form, f.HasData = "ill-member", true
+			f.IDs = []string{}
+			data := "[]"
+
+			if r.ToOne {
+				f.IDs = []string{"a"}
+				data = identJSON(r.ToType, "a")
+			}
+
+			f.Text = `{"data":` + data + "," + rapid.SampledFrom([]string{`"links":"/x"`, `"links":[1]`, `"meta":"draft"`, `"meta":3`, `"links":null,"meta":false`}).Draw(t, "illmember-form") + "}"
 		case mode == 3 && o.IllRelPerTen > 0 && rapid.IntRange(0, 9).Draw(t, "illrel") < o.IllRelPerTen:
 			f.Form, f.HasData = "ill-shaped", true
 
@@ -158,6 +171,19 @@ func ResourcePayload(t *rapid.T, ts *TypeSpec, o PayloadOpts) *PayloadCase {
 				id := IDString(t, "relid-"+r.FromName, false)
 				if i > 0 && rapid.IntRange(0, 3).Draw(t, "repeat") == 0 {
 					id = f.IDs[0]
+				}
+
+				// An element may carry the empty ID, or no id member at all.
+				if !o.Canonical && rapid.IntRange(0, 9).Draw(t, "emptyid") == 0 {
+					f.IDs = append(f.IDs, "")
+
+					if rapid.Bool().Draw(t, "noidmember") {
+						items = append(items, `{"type":`+QuoteJSON(r.ToType)+`}`)
+					} else {
+						items = append(items, identJSON(r.ToType, ""))
+					}
+
+					continue
 				}
 
 				f.IDs = append(f.IDs, id)
@@ -215,7 +241,10 @@ func ResourcePayload(t *rapid.T, ts *TypeSpec, o PayloadOpts) *PayloadCase {
 		members = append(members, `"relationships":{`+strings.Join(relParts, ",")+`}`)
 	}
 
-	if rapid.IntRange(0, 4).Draw(t, "resmeta") == 0 {
+	if o.IllPerTen > 0 && rapid.IntRange(0, 19).Draw(t, "illresmeta") == 0 {
+		// a resource-level meta / links member of the wrong JSON kind
+		members = append(members, rapid.SampledFrom([]string{`"meta":"draft"`, `"meta":[1]`, `"meta":3`, `"links":"x"`, `"links":[]`}).Draw(t, "illresmeta-form"))
+	} else if rapid.IntRange(0, 4).Draw(t, "resmeta") == 0 {
 		p.ResMeta = `{"k` + strconv.Itoa(rapid.IntRange(0, 3).Draw(t, "metakey")) + `":` + strconv.Itoa(rapid.IntRange(0, 9).Draw(t, "metaval")) + `}`
 		members = append(members, `"meta":`+p.ResMeta)
 	}
